@@ -8,9 +8,9 @@
 
    Instants are (u, us) = Unix seconds (fits TLC's 32-bit integers until 2038) and microseconds. The offset
    of every server zone at every instant comes from a table computed at check time from the tz database by
-   Python's zoneinfo (independent of Go's time package); the broken-down local time is computed HERE from
-   u + offset by the civil-from-days rule of the proleptic Gregorian calendar and cross-checked against the
-   table's own broken-down fields (TableConsistent).
+   Python's zoneinfo (independent of Go's time package); the broken-down local time is computed in
+   SegNameBase.tla from u + offset by the civil-from-days rule of the proleptic Gregorian calendar and
+   cross-checked against the table's own broken-down fields (TableConsistent).
 
    Layer 2 (from the statement):
      RoundTripOK  - the name produced for (format, path, instant) is recognized, as that path, as that
